@@ -709,3 +709,68 @@ pub fn gen_threads(rec: &mut Recorder, rng: &mut StdRng, iters: usize, nthreads:
                         "mode": "imm", "res": rj, "post": post, "log": [], "nolog": true, "count": count, "threads": nthreads}));
     }
 }
+
+// ------------------------------------------------------------------------------------------------
+// generator "deep": 4096-character inputs of maximal nesting (C01); each runs on a thread with the
+// 8 MiB stack of a default main thread.  A stack overflow aborts the process: the family in progress
+// is announced on stderr first, so that the driver can attribute the abort.
+// ------------------------------------------------------------------------------------------------
+pub fn gen_deep(rec: &mut Recorder, rng: &mut StdRng, _n: usize) {
+    let len = 4096usize;
+    let rep = |unit: &str, tail: &str| -> String {
+        let mut s = String::new();
+        while s.chars().count() + unit.chars().count() + tail.chars().count() <= len {
+            s.push_str(unit);
+        }
+        s.push_str(tail);
+        s
+    };
+    let mut families: Vec<(&str, String)> = vec![
+        ("open_parens", rep("(", "")),
+        ("nested_parens", format!("{}1{}", "(".repeat(2047), ")".repeat(2047))),
+        ("prefix_minus", rep("-", "1")),
+        ("prefix_not", rep("!", "true")),
+        ("application_chain", rep("f ", "1")),
+        ("assign_chain", rep("a=", "1")),
+        ("left_deep_sum", rep("1+", "1")),
+        ("right_deep_pow", rep("2^", "2")),
+        ("nested_tuples", rep("(1,", "")),
+        ("chain", rep("1;", "")),
+        ("long_string", format!("\"{}\"", "ä".repeat(4000))),
+        ("long_identifier", "x".repeat(4096)),
+        ("long_comment", format!("/*{}*/1", "*".repeat(4000))),
+        ("unterminated_string", format!("\"{}", "a".repeat(4000))),
+        ("many_commas", rep(",", "")),
+        ("mixed", rep("(-f x,", "")),
+    ];
+    for _ in 0..6 {
+        families.push(("fuzz4096", fuzz_string(rng, len)));
+    }
+    for (name, src) in families {
+        eprintln!("DEEP {name}");
+        let src2 = src.clone();
+        let h = std::thread::Builder::new()
+            .stack_size(8 << 20)
+            .spawn(move || {
+                guard(|| {
+                    let t = build_operator_tree::<DefaultNumericTypes>(&src2);
+                    let shown = match &t {
+                        Ok(t) => format!("{t}").len() + format!("{t:?}").len(),
+                        Err(e) => format!("{e} {e:?}").len(),
+                    };
+                    let mut c = crate::replay::populated();
+                    let r1 = eval_with_context_mut(&src2, &mut c).map(|v| format!("{v} {v:?}").len());
+                    let r2 = t.as_ref().ok().map(|t| t.eval_with_context(&crate::replay::populated()).map(|v| v.to_string().len()));
+                    let ids = t.as_ref().ok().map(|t| t.iter_identifiers().count());
+                    (t.is_ok(), shown, r1.is_ok(), r2.map(|r| r.is_ok()), ids)
+                })
+            })
+            .expect("spawn");
+        let outcome = match h.join() {
+            Ok(Ok((built, ..))) => json!({"p": if built { "val" } else { "err" }, "v": enc_value(&Value::Empty), "e": no_err()}),
+            Ok(Err(p)) => json!({"p": "panic", "v": enc_value(&Value::Empty), "e": no_err(), "panic": p}),
+            Err(_) => json!({"p": "panic", "v": enc_value(&Value::Empty), "e": no_err(), "panic": "thread died"}),
+        };
+        rec.emit(json!({"ev": "deep", "family": name, "len": src.chars().count(), "res": outcome}));
+    }
+}
